@@ -14,6 +14,8 @@ def run(ctx, rep):
     numeric.r08m(ctx, rep)
     numeric.r08n(ctx, rep)
     numeric.r08p(ctx, rep)
+    numeric.r08q(ctx, rep)
+    numeric.r08r(ctx, rep)
     # R08f: the zero test the division procedures guard with
     sub = type(rep)(rep.prop)
     numeric.r09c(ctx, sub)
